@@ -2,11 +2,11 @@ package main
 
 import (
 	"fmt"
-	"os"
 	"go/constant"
 	"go/token"
 	"go/types"
 	"math/big"
+	"os"
 	"sort"
 	"strings"
 
@@ -15,16 +15,16 @@ import (
 
 // Frame is one activation (the function under proof, or an inlined callee).
 type Frame struct {
-	fn     *ssa.Function
-	key    string
-	vals   map[ssa.Value]Val
-	spec   *FuncSpec
-	entry  *State // state at entry of this activation (old() for its loop invariants)
-	names  map[string]Val
-	loopIn map[int]*State
+	fn      *ssa.Function
+	key     string
+	vals    map[ssa.Value]Val
+	spec    *FuncSpec
+	entry   *State // state at entry of this activation (old() for its loop invariants)
+	names   map[string]Val
+	loopIn  map[int]*State
 	loopPos map[int]int
-	top    bool
-	ins    map[*ssa.BasicBlock][]edgeIn
+	top     bool
+	ins     map[*ssa.BasicBlock][]edgeIn
 }
 
 type edgeIn struct {
@@ -263,6 +263,15 @@ func (c *Ctx) execBody(fr *Frame, entry *State) (*State, Val) {
 				t, f := st.clone(), st.clone()
 				t.reach = c.define("reach", "Bool", and(st.reach, cv))
 				f.reach = c.define("reach", "Bool", and(st.reach, not(cv)))
+				if c.lfMode && strings.Contains(cv, "r.IsLocked") {
+					// prune branches that are infeasible under "locked at entry" (everything behind the lock check)
+					if !c.feasible(t.reach) {
+						t.reach = "false"
+					}
+					if !c.feasible(f.reach) {
+						f.reach = "false"
+					}
+				}
 				c.flow(fr, b, b.Succs[0], t, ins)
 				c.flow(fr, b, b.Succs[1], f, ins)
 				ended = true
@@ -285,10 +294,10 @@ func (c *Ctx) execBody(fr *Frame, entry *State) (*State, Val) {
 				rets = append(rets, retExit{st, res})
 				ended = true
 			case *ssa.Panic:
-				c.panics = append(c.panics, &PanicExit{reach: st.reach, dirty: st.dirty, pos: c.P.pos(x.Pos()), explicit: true, prefix: len(c.script)})
+				c.panics = append(c.panics, &PanicExit{st: st.clone(), reach: st.reach, dirty: st.dirty, pos: c.P.pos(x.Pos()), explicit: true, prefix: len(c.script)})
 				ended = true
 			default:
-				c.step(fr, st, ins)
+				c.stepGuarded(fr, st, ins)
 			}
 			if ended {
 				break
@@ -415,7 +424,15 @@ func (c *Ctx) loopHead(fr *Frame, h *ssa.BasicBlock, in *State, entryPhis map[*s
 		before := c.hget(in, n)
 		nh := c.declare("Hl."+n, hi.sort)
 		st.heap[n] = nh
-		if mi := mods[n]; !mi.whole {
+		allKnown := true
+		for _, k := range mods[n].keys {
+			for _, tok := range strings.FieldsFunc(k, func(r rune) bool { return r == '(' || r == ')' || r == ' ' }) {
+				if (strings.HasPrefix(tok, "new.") || strings.Contains(tok, "!")) && !c.known[tok] {
+					allKnown = false // key recorded at another inlining site of the same loop
+				}
+			}
+		}
+		if mi := mods[n]; !mi.whole && allKnown {
 			// only cells with these (loop-invariant) keys are written in the loop body
 			var ex []string
 			for _, k := range mi.keys {
@@ -429,8 +446,12 @@ func (c *Ctx) loopHead(fr *Frame, h *ssa.BasicBlock, in *State, entryPhis map[*s
 		nn := c.declare("now.l", "Int")
 		c.assume(fmt.Sprintf("(>= %s %s)", nn, in.now), "")
 		st.now = nn
-		d := c.declare("dirty.l", "Bool")
-		st.dirty = or(in.dirty, d)
+		if c.lfMode {
+			st.dirty = in.dirty // checked at the back edge: the loop body writes no world state
+		} else {
+			d := c.declare("dirty.l", "Bool")
+			st.dirty = or(in.dirty, d)
+		}
 	}
 	for _, ins := range h.Instrs {
 		phi, ok := ins.(*ssa.Phi)
@@ -505,6 +526,9 @@ func (c *Ctx) backEdge(fr *Frame, from, h *ssa.BasicBlock, st *State) {
 	}
 	if c.restart {
 		return
+	}
+	if c.lfMode {
+		c.oblige(st, "lockfast", fmt.Sprintf("%s/loop%d/clean@back.b%d", fr.key, ord, from.Index), implies(st.dirty, fr.loopIn[ord].dirty), "locked at entry: the loop body writes no world state")
 	}
 	// bind phis to back-edge values, check invariants, restore
 	saved := map[*ssa.Phi]Val{}
@@ -700,6 +724,12 @@ func (c *Ctx) step(fr *Frame, st *State, ins ssa.Instruction) {
 		fr.vals[x] = c.doAlloc(st, x.Type().(*types.Pointer).Elem(), x.Type(), x.Comment)
 	case *ssa.FieldAddr:
 		base := c.val(fr, x.X)
+		if pt0 := under(x.X.Type()).(*types.Pointer).Elem(); isForeignStruct(pt0) && base.K == VLoc {
+			s0 := under(pt0).(*types.Struct)
+			f0 := s0.Field(x.Field)
+			fr.vals[x] = Val{K: VLoc, Typ: x.Type(), L: &Loc{obase: base.L, ofield: typeShort(pt0) + "." + f0.Name(), otyp: f0.Type(), typ: f0.Type()}}
+			return
+		}
 		ref := c.refOf(base)
 		c.safe(st, fr, "safe/nil", "(not (= "+ref+" 0))", "nil dereference in field access")
 		pt := under(x.X.Type()).(*types.Pointer).Elem()
@@ -712,6 +742,11 @@ func (c *Ctx) step(fr *Frame, st *State, ins ssa.Instruction) {
 		}
 	case *ssa.Field:
 		base := c.val(fr, x.X)
+		if isForeignStruct(x.X.Type()) && base.K == VScalar {
+			f0 := under(x.X.Type()).(*types.Struct).Field(x.Field)
+			fr.vals[x] = c.opaqueField(base, typeShort(x.X.Type())+"."+f0.Name(), f0.Type())
+			return
+		}
 		if base.K != VStruct {
 			panic(unsupported("Field of non-struct value"))
 		}
@@ -721,12 +756,16 @@ func (c *Ctx) step(fr *Frame, st *State, ins ssa.Instruction) {
 	case *ssa.Index:
 		base := c.val(fr, x.X)
 		arr, ok := under(x.X.Type()).(*types.Array)
-		if !ok || base.K != VScalar {
+		if !ok || (base.K != VScalar && base.K != VArr) {
 			panic(unsupported("Index on " + x.X.Type().String()))
 		}
 		i := c.idx64(c.val(fr, x.Index))
 		c.safe(st, fr, "safe/idx", fmt.Sprintf("(bvult %s %s)", i, bvInt(64, arr.Len())), "array index in range")
-		fr.vals[x] = sc("(select "+base.T+" "+i+")", x.Type())
+		if base.K == VArr {
+			fr.vals[x] = arrSelect(base, i)
+		} else {
+			fr.vals[x] = sc("(select "+base.T+" "+i+")", x.Type())
+		}
 	case *ssa.UnOp:
 		fr.vals[x] = c.unop(fr, st, x)
 	case *ssa.Store:
@@ -834,7 +873,7 @@ func (c *Ctx) zeroStructElems(st *State, et types.Type, data string, sel func(r 
 		if classOf(f.Type()) == CStruct {
 			fn := c.subRef(et, f.Name(), "q.x")
 			fn = fn[1:strings.Index(fn, " ")]
-			c.zeroStructElems(st, f.Type(), data, func(r string) string { return sel("(inv." + fn + " " + r + ")") + "" }, wrap)
+			c.zeroStructElems(st, f.Type(), data, func(r string) string { return sel("(inv."+fn+" "+r+")") + "" }, wrap)
 			c.note("zero-initialisation of nested struct elements uses sub-object inverse functions")
 			continue
 		}
@@ -912,6 +951,13 @@ func (c *Ctx) deref(fr *Frame, st *State, v Val, ptrType types.Type) Val {
 		name := elemHeap(arr.Elem())
 		c.elemLoc(arr.Elem(), ref, bvInt(64, 0))
 		return sc("(select "+c.hget(st, name)+" "+ref+")", et)
+	case CSmallArr:
+		arr := under(et).(*types.Array)
+		out := Val{K: VArr, Typ: et}
+		for i := int64(0); i < arr.Len(); i++ {
+			out.F = append(out.F, c.loadLoc(st, c.elemLoc(arr.Elem(), ref, bvInt(64, i))))
+		}
+		return out
 	}
 	if _, ok := under(et).(*types.TypeParam); ok {
 		return sc("(deref.tp "+ref+")", et)
@@ -940,6 +986,12 @@ func (c *Ctx) doStore(fr *Frame, st *State, addr, v Val, ptrType types.Type) {
 		c.elemLoc(arr.Elem(), ref, bvInt(64, 0))
 		c.hset(st, name, fmt.Sprintf("(store %s %s %s)", c.hget(st, name), ref, v.T))
 		c.markDirty(st, ref)
+		return
+	case CSmallArr:
+		arr := under(et).(*types.Array)
+		for i := int64(0); i < arr.Len(); i++ {
+			c.storeLoc(st, c.elemLoc(arr.Elem(), ref, bvInt(64, i)), v.F[i])
+		}
 		return
 	}
 	panic(unsupported("store through pointer to " + et.String()))
@@ -1248,12 +1300,15 @@ func (c *Ctx) mapKey(k Val) string {
 		return "(concat " + strings.Join(ts, " ") + ")"
 	}
 	if k.K == VIface {
-		panic(unsupported("interface-keyed map"))
+		return k.F[1].T // interface keys (reflect.Type): identity of the payload pointer
 	}
 	return k.T
 }
 
 func keySort(t types.Type) string {
+	if classOf(t) == CIface {
+		return "Int"
+	}
 	if classOf(t) == CStruct {
 		s := under(t).(*types.Struct)
 		w := 0
@@ -1349,7 +1404,9 @@ func (c *Ctx) mapStore(st *State, t types.Type, ref, key string, v Val) {
 		cur := c.hget(st, m.val+lf.suffix)
 		c.hset(st, m.val+lf.suffix, fmt.Sprintf("(store %s %s (store (select %s %s) %s %s))", cur, ref, cur, ref, key, terms[i]))
 	}
-	c.markDirty(st, ref)
+	if worldStore(m.has, ref) {
+		c.markDirty(st, ref)
+	}
 }
 
 func (c *Ctx) mapDelete(st *State, t types.Type, ref, key string) {
@@ -1359,7 +1416,9 @@ func (c *Ctx) mapDelete(st *State, t types.Type, ref, key string) {
 	c.hset(st, m.has, fmt.Sprintf("(store %s %s (store %s %s false))", c.hget(st, m.has), ref, hasArr, key))
 	ln := fmt.Sprintf("(select %s %s)", c.hget(st, m.ln), ref)
 	c.hset(st, m.ln, fmt.Sprintf("(store %s %s (ite %s (bvsub %s %s) %s))", c.hget(st, m.ln), ref, old, ln, bvInt(64, 1), ln))
-	c.markDirty(st, ref)
+	if worldStore(m.has, ref) {
+		c.markDirty(st, ref)
+	}
 }
 
 // foldLit evaluates comparisons between literals (constant array indices and the like).
@@ -1411,4 +1470,27 @@ func invariantTerm(t string, late map[string]bool) bool {
 		}
 	}
 	return true
+}
+
+// stepGuarded executes one instruction; an instruction outside the supported subset ends the path with
+// the obligation that the path is infeasible (so unsupported code may only sit behind a proved panic).
+func (c *Ctx) stepGuarded(fr *Frame, st *State, ins ssa.Instruction) {
+	defer func() {
+		if r := recover(); r != nil {
+			u, ok := r.(unsupportedErr)
+			if !ok || !c.tolerant {
+				panic(r)
+			}
+			n := 0
+			for _, o := range c.obls {
+				if o.Kind == "unreachable" {
+					n++
+				}
+			}
+			o := c.obligeAt(st, "unreachable", fmt.Sprintf("%s/unreachable#%d", c.fn, n+1), "false", "code outside the verified subset ("+u.msg+") must be unreachable here")
+			o.Pos = c.P.pos(c.curPos)
+			st.reach = "false"
+		}
+	}()
+	c.step(fr, st, ins)
 }
